@@ -21,6 +21,9 @@ def main():
         tol = rng.choice([0, 1, 2, 3, 4, 6])
         method = rng.choice(["nearest", "forward", "backward"])
         case = e2e_case(axes, tol, method, rng, {i for i in range(nds) if rng.random() < 0.3})
+        names = rng.sample(["zeta", "alpha", "mu", "beta", "omega", "b", "ab", "a"], nds)     # declaration order is not alphabetical order
+        for d_, name in zip(case["datasets"], names):
+            d_["label"] = name
         try:
             with warnings.catch_warnings():
                 warnings.simplefilter("ignore")
@@ -28,6 +31,9 @@ def main():
             done += 1
         except AlignDatasetError:
             refused += 1
+        except Exception as ex:  # noqa: BLE001  - reported to the acceptor, which judges it
+            from glotaran.utils import verif_trace
+            verif_trace.emit("driver_error", error=f"{type(ex).__name__}: {str(ex)[:200]}", axes=axes, tol=tol, method=method, labels=names)
     print(f"aligned={done} refused={refused}")
 
 
